@@ -95,7 +95,7 @@ pub fn ty(t: &Type) -> Sx {
     }
 }
 
-const PARAMS: &[&str] = &["T", "U", "V", "A", "X", "u8", "String", "Self"];
+const PARAMS: &[&str] = &["T", "U", "V", "A", "X", "u8", "String", "Self", "r#T", "r#V"];
 const LTS: &[&str] = &["'a", "'b", "'c", "'static", "'_"];
 
 pub fn gen_type(r: &mut Rng, depth: usize) -> String {
@@ -167,7 +167,7 @@ pub fn run_a(seed: u64, n: usize, out: &mut Out) {
         let tsx = ty(&t);
         // query sets: any subset of the planted names (and names that never occur)
         let mut set_names: Vec<&str> = vec![];
-        for p in ["T", "U", "V", "A", "Z", "Out", "Item", "Assoc", "Vec", "a"] {
+        for p in ["T", "U", "V", "A", "Z", "Out", "Item", "Assoc", "Vec", "a", "r#U", "r#X"] {
             if r.chance(1, 2) {
                 set_names.push(p);
             }
@@ -178,7 +178,13 @@ pub fn run_a(seed: u64, n: usize, out: &mut Out) {
                 lt_names.push(l);
             }
         }
-        let iset: IdentSet = set_names.iter().map(|s| syn::Ident::new(s, proc_macro2::Span::call_site())).collect();
+        let iset: IdentSet = set_names
+            .iter()
+            .map(|s| match s.strip_prefix("r#") {
+                Some(raw) => syn::Ident::new_raw(raw, proc_macro2::Span::call_site()),
+                None => syn::Ident::new(s, proc_macro2::Span::call_site()),
+            })
+            .collect();
         let lset: LifetimeSet = lt_names.iter().map(|s| syn::Lifetime::new(s, proc_macro2::Span::call_site())).collect();
         for (declare, purpose) in [(false, Purpose::BoundImpl), (true, Purpose::Declare)] {
             let res = std::panic::catch_unwind(|| {
